@@ -1066,6 +1066,8 @@ class Container:
 
         if not isinstance(unit, str):
             raise TypeError("Unit must be a str.")
+        if not unit.endswith('L'):
+            raise ValueError("Unit must be a unit of volume.")
 
         return Unit.convert_from_storage(self.volume, unit)
 
